@@ -56,6 +56,9 @@ func main() {
 			case 3:
 				c.Global = append(c.Global, "405", "options")
 			}
+			if r.IntN(3) == 0 {
+				c.Global = append(c.Global, "clonewith-mw")
+			}
 			c.Reqs = append(c.Reqs, route.Req{Method: "OPTIONS", Path: "*"})
 			var extra []route.Req
 			for _, q := range c.Reqs[:len(c.Reqs)/2] {
